@@ -254,6 +254,16 @@ func (m *Manager) AddBlocks(blocks []types.Block) error {
 	cs := m.tipState
 	for _, b := range blocks {
 		bid := b.ID()
+		if known, ok := m.store.State(bid); ok {
+			if index, ok := m.store.BestIndex(known.Index.Height); ok && index.ID == bid {
+				if _, _, ok := m.store.Block(bid); !ok {
+					// already applied to the best chain, but its body has been
+					// pruned; re-adding it would replace its validated state
+					cs = known
+					continue
+				}
+			}
+		}
 		var ok bool
 		if _, bs, _ := m.store.Block(bid); bs != nil {
 			// already have this block
